@@ -30,6 +30,8 @@ None == [k |-> "none"]
 TM(v, o) == [k |-> "uniform", v |-> v, op |-> o]
 CM(cs, o) == [k |-> "uniform", cs |-> cs, op |-> o]
 GM(m) == [k |-> "uniform", m |-> m]
+(* two grains models of one feature for different composition labels: <<label of the first, label of the second>>; the model for label 0 is m *)
+GM2(m, first0) == [k |-> "two", m |-> m, first0 |-> first0]
 VM(v) == [k |-> "uniform", v |-> v]
 
 TOps == {"replace", "add", "subtract"}
@@ -40,7 +42,7 @@ COps == {"replace", "replace defined only", "add", "subtract"}
 MA(t, c, g, v) == [t |-> t, c |-> c, g |-> g, v |-> v]
 TVariants == {MA(<<TM(v, o)>>, <<>>, None, None) : v \in {100, 300}, o \in TOps}
 CVariants == {MA(<<>>, <<CM(cs, o)>>, None, None) : cs \in {<<0>>, <<1>>, <<0, 1>>}, o \in COps}
-GVariants == {MA(<<>>, <<>>, GM(m), None) : m \in {1, 2}}
+GVariants == {MA(<<>>, <<>>, GM(m), None) : m \in {1, 2}} \cup {MA(<<>>, <<>>, GM2(2, b), None) : b \in BOOLEAN}
 TwoModels == { MA(<<TM(100, "replace"), TM(30, "add")>>, <<>>, None, None), MA(<<TM(100, "add"), TM(300, "replace")>>, <<>>, None, None),
                MA(<<TM(40, "subtract"), TM(20, "subtract")>>, <<>>, None, None),
                MA(<<>>, <<CM(<<0>>, "add"), CM(<<0, 1>>, "replace defined only")>>, None, None),
@@ -130,7 +132,11 @@ GSize(m) == IF m = 1 THEN Dec(5, -1) ELSE Dec(25, -2)
 RenderT(ma) == [k \in 1..Len(ma.t) |-> TUniform(ma.t[k].v, ma.t[k].op)]
 RenderC(ma) == [k \in 1..Len(ma.c) |-> IF Len(ma.c[k].cs) = 1 THEN CUniform(ma.c[k].cs, ma.c[k].op)
                                        ELSE CUniformF(ma.c[k].cs, <<Dec(25, -2), Dec(75, -2)>>, ma.c[k].op)]
-RenderG(ma) == IF ma.g.k = "none" THEN <<>> ELSE <<GUniform(<<0>>, <<GMat(ma.g.m)>>, <<GSize(ma.g.m)>>)>>
+RenderG(ma) == CASE ma.g.k = "none" -> <<>>
+                 [] ma.g.k = "uniform" -> <<GUniform(<<0>>, <<GMat(ma.g.m)>>, <<GSize(ma.g.m)>>)>>
+                 [] OTHER -> LET own == GUniform(<<0>>, <<GMat(ma.g.m)>>, <<GSize(ma.g.m)>>)
+                                 other == GUniform(<<1>>, <<GMat(3 - ma.g.m)>>, <<GSize(3 - ma.g.m)>>)      \* a model for label 1 only
+                             IN IF ma.g.first0 THEN <<own, other>> ELSE <<other, own>>
 RenderV(ma) == IF ma.v.k = "none" THEN <<>> ELSE <<VUniform(ma.v.v)>>
 
 Render(f, n) ==
